@@ -285,6 +285,10 @@ theorem evaluate_mated {s : State} {d : Nat} {e : Eval} (hl : legalMoves? s = so
     simp only [hc, Bool.or_true, if_true, hl, List.isEmpty_nil, Bool.and_self, beq_self_eq_true] at h
     exact (Option.some.inj h).symm
 
+theorem neg_mate_le (d : Nat) : - Ev.mateInPly d ≤ (-10000 : Eval) := by
+  have := mateInPly_ge d
+  eomega
+
 /-! ## 4. the move loop -/
 
 /-- invariant of the running `alpha` / `best_move` of the move loop (completeness part) -/
@@ -463,9 +467,8 @@ theorem tail_leaf_complete {K : Keys} {H : List UInt64} {D : State → Prop} {B 
       | some e =>
         rw [hev] at hq
         cases hq
-        have := evaluate_mated hms hc hev
-        have := mateInPly_ge a.curDepth
-        right; eomega
+        rw [evaluate_mated hms hc hev]
+        exact Or.inr (neg_mate_le _)
 
 theorem tail_loop_complete {K : Keys} {H : List UInt64} {D : State → Prop} {B L nT nB : Nat} (g : Geo L nT nB)
     (dom : Domain K D) (coll : CollH K H D B) (ctx : Ctx) (a : NodeArgs) (rem' : Nat) (alpha beta : Eval)
@@ -552,9 +555,8 @@ theorem tail_loop_complete {K : Keys} {H : List UInt64} {D : State → Prop} {B 
         refine ⟨p1, by omega, fun hw => ?_, fun hl => ?_⟩
         · exact absurd hlm (fmH_moves K H hw)
         · have hc := liH_nomoves K H hl hlm
-          have := evaluate_mated hms hc he
-          have := mateInPly_ge a.curDepth
-          right; eomega
+          rw [evaluate_mated hms hc he]
+          exact Or.inr (neg_mate_le _)
     · rw [if_neg hn]
       cases best with
       | none =>
@@ -570,7 +572,7 @@ theorem tail_loop_complete {K : Keys} {H : List UInt64} {D : State → Prop} {B 
           fun _ => Triple.pure fun st hp => ⟨hp.1.1, hp.1.2, fun hw => Or.inr (hp.2.1 hw), hp.2.2⟩
         obtain ⟨hp, _⟩ := hp
         obtain ⟨f1, f2, f3⟩ := hfinal st hp
-        refine ⟨⟨CInv.insert g coll hp.1 hD ?_, by have := hp.2.1; omega⟩, f1, f2⟩
+        refine ⟨⟨CInv.insert g coll hp.1 hD ?_, by show m ≤ st.nodes; have := hp.2.1; omega⟩, f1, f2⟩
         intro k hk1 hk2
         have hk : k ≤ rem' + 1 := by
           have : k ≤ a.maxDepth - a.curDepth := hk1
@@ -580,5 +582,162 @@ theorem tail_loop_complete {K : Keys} {H : List UInt64} {D : State → Prop} {B 
         have h2 := f3 (fun h => nomatch h)
         show alpha' ≤ -10000
         eomega
+
+/-! ## 6. the table probe, the whole node -/
+
+/-- what the induction hypothesis says about the recursive call of a node with remaining depth `rem` -/
+def RecSpec (K : Keys) (H : List UInt64) (D : State → Prop) (B L nT nB : Nat) (rem : Nat) :
+    Option (NodeArgs → M Eval) → Prop
+  | Option.none => rem = 0
+  | some child => ∃ rem', rem = rem' + 1 ∧ ChildSpec K H D B L nT nB rem' child
+
+theorem kindExact_ne_upper : kindExact ≠ kindUpper := by decide
+
+theorem probe_complete {K : Keys} {H : List UInt64} {D : State → Prop} {B L nT nB : Nat} (g : Geo L nT nB)
+    (dom : Domain K D) (coll : CollH K H D B) (ctx : Ctx) (a : NodeArgs) (rem : Nat)
+    (hD : D a.s) (hab : a.alpha < a.beta) (hrem : a.maxDepth = a.curDepth + rem) (hB : rem ≤ B) (hprio : PrioOK a)
+    (rec : Option (NodeArgs → M Eval)) (hrec : RecSpec K H D B L nT nB rem rec) (m : Nat) :
+    Triple (fun st => CInv K H D B L nT nB st ∧ m ≤ st.nodes) (probe ctx a (hash K a.s) rec)
+      (fun r st' => CInv K H D B L nT nB st' ∧ m ≤ st'.nodes ∧ CVal K H a.s rem a.alpha a.beta r) := by
+  have htail : ∀ alpha beta, alpha < beta → Triple (fun st => CInv K H D B L nT nB st ∧ m ≤ st.nodes)
+      (tail ctx a (hash K a.s) alpha beta rec)
+      (fun r st' => CInv K H D B L nT nB st' ∧ m ≤ st'.nodes ∧ CVal K H a.s rem alpha beta r) := by
+    intro alpha beta h
+    cases rec with
+    | none =>
+      have h0 : rem = 0 := hrec
+      subst h0
+      exact tail_leaf_complete dom ctx a _ alpha beta hD m
+    | some child =>
+      obtain ⟨rem', h0, hc⟩ := hrec
+      subst h0
+      exact tail_loop_complete g dom coll ctx a rem' alpha beta hD h hrem hprio child hc m
+  unfold probe
+  refine Triple.bind (R := fun s st' => st' = s ∧ (CInv K H D B L nT nB s ∧ m ≤ s.nodes))
+    (Triple.get fun st hp => ⟨rfl, hp⟩) fun st => ?_
+  have hpre : ∀ st', (st' = st ∧ (CInv K H D B L nT nB st ∧ m ≤ st.nodes)) →
+      (CInv K H D B L nT nB st' ∧ m ≤ st'.nodes) := fun st' hp => hp.1 ▸ hp.2
+  cases hf : st.tt.find (hash K a.s).toNat with
+  | none => exact (htail _ _ hab).conseq hpre fun _ _ h => h
+  | some e =>
+    simp only
+    refine Triple.pre_pure (φ := CInv K H D B L nT nB st ∧ m ≤ st.nodes) (fun _ hp => hp.2) fun hst => ?_
+    have hce := hst.1.2 a.s e hD hf
+    by_cases hu : a.maxDepth < a.curDepth ∨ e.maxDepth < e.depth
+    · rw [if_pos hu]; exact triple_throw_bind
+    · rw [if_neg hu]
+      by_cases hd : e.maxDepth - e.depth ≥ a.maxDepth - a.curDepth
+      · rw [if_pos hd]
+        have hk : rem ≤ e.maxDepth - e.depth := by omega
+        obtain ⟨cW, cL⟩ := hce rem hk hB
+        by_cases hx : (e.kind == kindExact) = true
+        · rw [if_pos hx]
+          have hx' : e.kind = kindExact := beq_iff_eq.1 hx
+          refine Triple.pure fun st' hp => ⟨(hpre st' hp).1, (hpre st' hp).2, fun hw => Or.inr (cW (Or.inl hx') hw),
+            fun hl => Or.inr (cL (by rw [hx']; exact kindExact_ne_upper) hl)⟩
+        · rw [if_neg hx]
+          by_cases hup : (e.kind == kindUpper) = true
+          · rw [if_pos hup]
+            have hup' : e.kind = kindUpper := beq_iff_eq.1 hup
+            by_cases hc : a.alpha ≥ min a.beta e.eval
+            · rw [if_pos hc]
+              refine Triple.pure fun st' hp => ⟨(hpre st' hp).1, (hpre st' hp).2,
+                fun hw => Or.inr (cW (Or.inr hup') hw), fun _ => Or.inl ?_⟩
+              eomega
+            · rw [if_neg hc]
+              refine (htail _ _ (by eomega)).conseq hpre fun r st' hp => ⟨hp.1, hp.2.1, fun hw => ?_, hp.2.2.2⟩
+              have h1 := cW (Or.inr hup') hw
+              have h2 := hp.2.2.1 hw
+              eomega
+          · rw [if_neg hup]
+            have hup' : e.kind ≠ kindUpper := fun h => hup (beq_iff_eq.2 h)
+            by_cases hc : max a.alpha e.eval ≥ a.beta
+            · rw [if_pos hc]
+              refine Triple.pure fun st' hp => ⟨(hpre st' hp).1, (hpre st' hp).2, fun _ => Or.inl ?_,
+                fun hl => Or.inr (cL hup' hl)⟩
+              eomega
+            · rw [if_neg hc]
+              refine (htail _ _ (by eomega)).conseq hpre fun r st' hp => ⟨hp.1, hp.2.1, hp.2.2.1, fun hl => ?_⟩
+              have h1 := cL hup' hl
+              have h2 := hp.2.2.2 hl
+              eomega
+      · rw [if_neg hd]; exact (htail _ _ hab).conseq hpre fun _ _ h => h
+
+/-- postcondition of a node: the table invariant, one more counted node, a complete value unless the node was cut
+by the history — and in that case the value `0` -/
+def NodePost (K : Keys) (H : List UInt64) (D : State → Prop) (B L nT nB : Nat) (a : NodeArgs) (rem n : Nat)
+    (r : Eval) (st' : St) : Prop :=
+  CInv K H D B L nT nB st' ∧ n < st'.nodes ∧
+  ((a.curDepth = 0 ∨ inHist K H a.s = false) → CVal K H a.s rem a.alpha a.beta r) ∧
+  (0 < a.curDepth → inHist K H a.s = true → r = 0)
+
+theorem nodeBody_complete {K : Keys} {H : List UInt64} {D : State → Prop} {B L nT nB : Nat} (g : Geo L nT nB)
+    (dom : Domain K D) (coll : CollH K H D B) (ctx : Ctx) (hK : ctx.keys = K) (hH : ctx.history = H)
+    (a : NodeArgs) (rem : Nat)
+    (hD : D a.s) (hab : a.alpha < a.beta) (hrem : a.maxDepth = a.curDepth + rem) (hB : rem ≤ B) (hprio : PrioOK a)
+    (rec : Option (NodeArgs → M Eval)) (hrec : RecSpec K H D B L nT nB rem rec) (n : Nat) :
+    Triple (fun st => CInv K H D B L nT nB st ∧ n ≤ st.nodes) (nodeBody ctx rec a)
+      (NodePost K H D B L nT nB a rem n) := by
+  subst hK
+  subst hH
+  unfold nodeBody
+  refine Triple.bind (R := fun _ st => CInv ctx.keys ctx.history D B L nT nB st ∧ n + 1 ≤ st.nodes)
+    (Triple.modify fun st hp => ⟨hp.1, Nat.succ_le_succ hp.2⟩) fun _ => ?_
+  refine Triple.bind (R := fun s st' => (CInv ctx.keys ctx.history D B L nT nB st' ∧ n + 1 ≤ st'.nodes) ∧
+      (CInv ctx.keys ctx.history D B L nT nB s ∧ n + 1 ≤ s.nodes)) (Triple.get fun st hp => ⟨hp, hp⟩) fun st => ?_
+  simp only
+  have hrest : Triple (fun st => CInv ctx.keys ctx.history D B L nT nB st ∧ n + 1 ≤ st.nodes)
+      (if (decide (a.curDepth > 0) && ctx.history.contains (hash ctx.keys a.s)) = true then pure 0
+        else probe ctx a (hash ctx.keys a.s) rec) (NodePost ctx.keys ctx.history D B L nT nB a rem n) := by
+    split
+    · rename_i hc
+      rw [Bool.and_eq_true, decide_eq_true_eq] at hc
+      refine Triple.pure fun st hp => ⟨hp.1, hp.2, fun h => ?_, fun _ _ => rfl⟩
+      exfalso
+      rcases h with h | h
+      · omega
+      · unfold inHist at h; rw [hc.2] at h; cases h
+    · rename_i hc
+      refine (probe_complete g dom coll ctx a rem hD hab hrem hB hprio rec hrec (n + 1)).conseq (fun _ hp => hp)
+        fun r st' hp => ⟨hp.1, hp.2.1, fun _ => hp.2.2, fun h1 h2 => ?_⟩
+      exfalso
+      apply hc
+      rw [Bool.and_eq_true, decide_eq_true_eq]
+      exact ⟨h1, h2⟩
+  split
+  · refine Triple.bind (R := fun _ st => CInv ctx.keys ctx.history D B L nT nB st ∧ n + 1 ≤ st.nodes)
+      (Triple.set fun st' hp => hp.2) fun _ => ?_
+    split
+    · split
+      · exact triple_throw_bind
+      · exact hrest
+    · rw [if_neg (by decide)]; exact hrest
+  · exact hrest.conseq (fun st hp => hp.1) fun _ _ h => h
+
+/-- **`analyze_recursive` is complete.**  For every remaining depth `rem ≤ B`, every node whose position lies in the
+domain, with window `alpha < beta`, depth bookkeeping `max_depth = current_depth + rem` and a legal (or no)
+prioritised move, every generator state, poll counter and cancellation point: if the call returns, the table
+invariant `CInv` (shape + `CompleteTT`) holds again, at least one more node has been counted, and — for the root
+(`current_depth = 0`) and for every node whose key is not recorded — the value is `CVal`: a visible forced mate
+within `rem` plies is reported as `≥ min beta POS_INF`, a visible forced loss as `≤ max alpha NEG_INF`. -/
+theorem searchNode_complete {K : Keys} {H : List UInt64} {D : State → Prop} {B L nT nB : Nat} (g : Geo L nT nB)
+    (dom : Domain K D) (coll : CollH K H D B) (ctx : Ctx) (hK : ctx.keys = K) (hH : ctx.history = H) :
+    ∀ (rem : Nat) (a : NodeArgs), D a.s → a.alpha < a.beta → a.maxDepth = a.curDepth + rem → rem ≤ B → PrioOK a →
+      ∀ n, Triple (fun st => CInv K H D B L nT nB st ∧ n ≤ st.nodes) (searchNode ctx rem a)
+        (NodePost K H D B L nT nB a rem n) := by
+  intro rem
+  induction rem with
+  | zero =>
+    intro a hD hab hrem hB hp n
+    rw [searchNode_zero]
+    exact nodeBody_complete g dom coll ctx hK hH a 0 hD hab hrem hB hp Option.none rfl n
+  | succ rem ih =>
+    intro a hD hab hrem hB hp n
+    rw [searchNode_succ]
+    refine nodeBody_complete g dom coll ctx hK hH a (rem+1) hD hab hrem hB hp (some (searchNode ctx rem))
+      (show ∃ rem', rem + 1 = rem' + 1 ∧ ChildSpec K H D B L nT nB rem' (searchNode ctx rem) from ⟨rem, rfl, ?_⟩) n
+    intro args hDa haba hrema hpa hcur n'
+    refine (ih args hDa haba hrema (by omega) (fun m hm => by rw [hpa] at hm; cases hm) n').conseq (fun _ h => h)
+      fun r st' hp' => ⟨hp'.1, hp'.2.1, fun h => hp'.2.2.1 (Or.inr h)⟩
 
 end Wee.C06
